@@ -94,7 +94,7 @@ def run_demo(wt, bd, meta, src):
 
 
 def main():
-    src, sid = sys.argv[1], sys.argv[2]
+    src, sid = os.path.abspath(sys.argv[1]), sys.argv[2]
     args = sys.argv[3:]
     checks = None
     tier = "quick"
@@ -143,7 +143,7 @@ def main():
     dst = os.path.join(VERIF, "seeded", sid)
     os.makedirs(dst, exist_ok=True)
     for fn in os.listdir(src):
-        if os.path.isfile(os.path.join(src, fn)):
+        if os.path.isfile(os.path.join(src, fn)) and os.path.abspath(src) != os.path.abspath(dst):
             shutil.copy(os.path.join(src, fn), os.path.join(dst, fn))
     # a re-evaluation with --skip-confirm keeps the confirmation fields of the earlier run
     if skip_confirm and os.path.exists(os.path.join(dst, "meta.json")):
